@@ -205,8 +205,27 @@ func runC07(c *ctx) {
 	cfg := world.DefaultGen()
 	cfg.Rich = true
 	cfg.Secrets = []string{"tls1", "tls2"}
+	// corpus: scale-in of the first replica, then scale-out, with preserved cookies whose value is not the
+	// server name (slot names and positions diverge: a new endpoint must take the name of the slot it reuses)
+	for _, strat := range []string{"pod-uid", "server-name"} {
+		c07hist(c, strings.Fields("svc+d/app!http:80:8080!- pod+d/app-1!10.0.1.1!app=app!- pod+d/app-2!10.0.1.2!app=app!- pod+d/app-3!10.0.1.3!app=app!- "+
+			"ep~d/app!10.0.1.1:r:app-1+10.0.1.2:r:app-2 "+
+			"ing+d/i1@1!haproxy,-!affinity=cookie;session-cookie-name=srv;session-cookie-preserve=true;session-cookie-value-strategy="+strat+"!a.local>/:Prefix:app:80!-!- sync "+
+			"ep~d/app!10.0.1.2:r:app-2 sync ep~d/app!10.0.1.2:r:app-2+10.0.1.3:r:app-3 sync"))
+	}
 	for i := 0; i < n; i++ {
 		g := world.NewGen(r.Fork(), cfg)
-		c07hist(c, g.History())
+		ops := g.History()
+		// more endpoint churn (scale in / out) between the batches
+		var out []string
+		for _, o := range ops {
+			out = append(out, o)
+			if o == "sync" && r.Chance(1, 2) {
+				for k := r.Range(1, 2); k > 0; k-- {
+					out = append(out, g.ChurnOp(), "sync")
+				}
+			}
+		}
+		c07hist(c, out)
 	}
 }
